@@ -67,7 +67,7 @@ type parser.ParseCallback(n, err) returns (stop, cbError)
   requires @one-of (n != nil) == (err == nil)
   modifies *
   modifies ghost(cbLen, cbErr, cbNode, cbStop, cbRet, cbLineNo, cbLine, cbHeader, cbElems, cbNElems)
-  ensures CbEvent(n, err, stop, cbError)
+  free ensures CbEvent(n, err, stop, cbError)      // definition of the ghost trace: the call itself is the event
   free ensures CbPrivate(n)
 
 // A callback that stops exactly when it is handed an error, and hands that error back (all commands but lint).
@@ -75,7 +75,7 @@ type parser.StopOnErr(n, err) returns (stop, cbError)
   requires @one-of (n != nil) == (err == nil)
   modifies *
   modifies ghost(cbLen, cbErr, cbNode, cbStop, cbRet, cbLineNo, cbLine, cbHeader, cbElems, cbNElems)
-  ensures CbEvent(n, err, stop, cbError)
+  free ensures CbEvent(n, err, stop, cbError)      // definition of the ghost trace: the call itself is the event
   ensures @stop-on-error err != nil ==> stop && cbError == err
   ensures @stop-means-error stop ==> cbError != nil
   free ensures CbPrivate(n)
@@ -92,6 +92,7 @@ func ParseStreamCallback
   props C08 C09 C10
   requires callback != nil
   modifies *
+  modifies ghost(cbLen, cbErr, cbNode, cbStop, cbRet, cbLineNo, cbLine, cbHeader, cbElems, cbNElems, scRd, scPos, privLo, evOf)
   let rd := payload(reader)
   let cc := c.CommentChar
   // the parse ends with the answer of the callback that stopped it, or of the last record
@@ -118,4 +119,52 @@ func ParseStreamCallback
   ghost before call 1 Trim { assert @line line == RdLine(rd, lineNumber - 1); unfold HasNode(rd, lineNumber, cc); unfold IsHeadingLine(line, cc); unfold MalformedLine(line, cc) }
   ghost before dyncall 2 { set evOf := store(evOf, lineNumber - 1, cbLen) }
   ghost before dyncall 3 { set evOf := store(evOf, lineNumber - 1, cbLen) }
+
+// ---------------------------------------------------------------------------------------------
+// ParseStreamCallback with a callback that stops at the first error (every command except lint):
+// the parse fails iff the input has a malformed line or cannot be read completely, and an error that
+// stems from a malformed line is the one of the FIRST malformed line.
+// ---------------------------------------------------------------------------------------------
+func ParseStreamCallback variant stoponerr
+  dyncall 1 parser.StopOnErr
+  dyncall 2 parser.StopOnErr
+  dyncall 3 parser.StopOnErr
+  dyncall 4 parser.StopOnErr
+  ensures @fails-on-malformed [C09] result == nil ==> (forall i int :: {RdLine(rd, i)} 0 <= i && i < RdN(rd) ==> !Malformed(rd, i, cc))
+  ensures @fails-on-unreadable [C10] result == nil ==> !RdFailed(rd)
+  ensures @quotes-first [C09] forall j int :: {cbErr[j]} old(cbLen) <= j && j < cbLen && cbErr[j] != nil ==> j == cbLen - 1 && result == cbErr[j] && (forall i2 int :: {RdLine(rd, i2)} 0 <= i2 && i2 < cbLineNo[j] - 1 ==> !Malformed(rd, i2, cc))
+  ensures @error-or-all [C10] result == nil ==> (forall j int :: {cbStop[j]} old(cbLen) <= j && j < cbLen ==> !cbStop[j] && cbErr[j] == nil)
+  loop 1 {
+    invariant @clean forall i int :: {RdLine(rd, i)} 0 <= i && i < lineNumber ==> !Malformed(rd, i, cc)
+    invariant @noerr forall j int :: {cbErr[j]} old(cbLen) <= j && j < cbLen ==> cbErr[j] == nil
+  }
+
+// ---------------------------------------------------------------------------------------------
+// ParseStreamCallback specialised by the callback of utils.LoadDatabaseFromStream: the same body, with the
+// callback calls bound to that closure's own contract. Its frame is precise: besides objects it allocates
+// itself the parse only changes the map the closure fills.
+// ---------------------------------------------------------------------------------------------
+func ParseStreamCallback variant loaddb
+  bind callback = utils.LoadDatabaseFromStream$1
+  props C08 C09 C10 C01
+  requires @wfdb WfDB(captured(callback, nodeMap))
+  modifies mapof(captured(callback, nodeMap))
+  modifies ghost(cbLen, cbErr, cbNode, cbStop, cbRet, cbLineNo, cbLine, cbHeader, cbElems, cbNElems, scRd, scPos, privLo, evOf)
+  ensures @wfdb [C08 C01] WfDB(captured(callback, nodeMap)) && captured(callback, nodeMap) == old(captured(callback, nodeMap))
+  ensures @fails-on-malformed [C09] result == nil ==> (forall i int :: {RdLine(rd, i)} 0 <= i && i < RdN(rd) ==> !Malformed(rd, i, cc))
+  ensures @fails-on-unreadable [C10] result == nil ==> !RdFailed(rd)
+  ensures @quotes-first [C09] forall j int :: {cbErr[j]} old(cbLen) <= j && j < cbLen && cbErr[j] != nil ==> j == cbLen - 1 && result == cbErr[j] && (forall i2 int :: {RdLine(rd, i2)} 0 <= i2 && i2 < cbLineNo[j] - 1 ==> !Malformed(rd, i2, cc))
+  loop 1 {
+    invariant @wfdb WfDB(captured(callback, nodeMap)) && captured(callback, nodeMap) == old(captured(callback, nodeMap))
+    invariant @clean forall i int :: {RdLine(rd, i)} 0 <= i && i < lineNumber ==> !Malformed(rd, i, cc)
+    invariant @noerr forall j int :: {cbErr[j]} old(cbLen) <= j && j < cbLen ==> cbErr[j] == nil
+    invariant @own node != nil ==> arr(node.Elements) >= privLo && (node.Metadata != nil ==> ref(node.Metadata) >= privLo && arr(*node.Metadata) >= privLo)
+  }
+
+// ParseFileCallback: an unreadable file is an error; otherwise as ParseStreamCallback
+func ParseFileCallback
+  props C08 C10
+  requires callback != nil
+  modifies *
+  modifies ghost(cbLen, cbErr, cbNode, cbStop, cbRet, cbLineNo, cbLine, cbHeader, cbElems, cbNElems, scRd, scPos, privLo, evOf)
 @*/
